@@ -49,7 +49,7 @@ pub fn exec(input: &Value) -> Value {
     }
     let mut case = input.clone();
     let obj = case.as_object_mut().unwrap();
-    obj.insert("aux".into(), gen_schema::float_strings(&input["renderings"]));
+    obj.insert("aux".into(), gen_schema::aux_for(&input["schema"], &input["renderings"]));
     obj.insert("impl".into(), Value::Array(outs));
     case
 }
